@@ -18,6 +18,7 @@ import json
 import os
 import re
 import shutil
+import stat
 import subprocess
 import sys
 import threading
@@ -49,6 +50,9 @@ WEIRD = {
     "w_dots": "a.b.c", "w_mix": 'k: "v" #c {x} [y] *z &w !t |p >q %r @s `u', "w_yes": "yes", "w_float": "1.5",
     "w_crlf": "a\r\nb", "w_nbsp": "\u00a0a", "w_ls": "a\u2028b", "w_del": "a\x7fb", "w_pipes": "a|b|c",
     "w_tpl": "{{.InterfaceDir}}",
+    "w_kall": "all", "w_kpackages": "packages", "w_kconfig": "config", "w_ktd": "template-data",
+    "w_kinterfaces": "interfaces", "w_kConfig": "Config",
+    "w_longsp": " ".join("word%d" % i for i in range(300)), "w_xlong": "/".join(["y" * 59] * 100),
     "w_dslash": "a//b", "w_dotrel": "./x/../y", "w_upper": "Example.COM/X", "w_trailsl": "a/b/",
     "w_leadnl": "\nabc", "w_tabml": "\tx\ny", "w_lsml": "\u2028x\ny", "w_nlonly": "\n",
 }
@@ -81,6 +85,7 @@ MCWorldsRnd == {%s}
 # MOCKERY_* variables present while `mockery init` runs (load / run always get a clean environment)
 ENVS = {
     "none": {},
+    "flagloglevel": {"_argv": "--log-level=debug"},      # a persistent flag instead of a variable
     "loglevel": {"MOCKERY_LOG_LEVEL": "debug"},
     "dir": {"MOCKERY_DIR": "envmocks/{{.SrcPackageName}}"},
     "filename": {"MOCKERY_FILENAME": "env_mocks.go"},
@@ -144,7 +149,16 @@ def module_of(world):
     return MODS.get(world, "example.com/w")
 
 
+ARG_SHAPES = {"a_none": [], "a_two": ["example.com/w/one", "example.com/w/two"]}
+
+
+def pkg_args(world, pid):
+    return ARG_SHAPES[pid] if pid in ARG_SHAPES else [pkg_string(world, pid)]
+
+
 def pkg_string(world, pid):
+    if pid in ARG_SHAPES:
+        return " ".join(ARG_SHAPES[pid])
     if pid == "root":
         return module_of(world)
     if pid == "sub":
@@ -223,6 +237,26 @@ def elsewhere(before, after, root, target):
                   if before.get(p_) != after.get(p_) and p_ != trel and p_ not in lead and not p_.startswith(trel + "/"))
 
 
+def tree_state(root):
+    """relpath -> kind:hash for everything below root; special files (pipes) are never opened."""
+    out = {}
+    for dp, dns, fns in os.walk(root):
+        rel = os.path.relpath(dp, root)
+        for n_ in sorted(dns) + sorted(fns):
+            p_ = os.path.join(dp, n_)
+            r_ = os.path.normpath(os.path.join(rel, n_))
+            st = os.lstat(p_)
+            if stat.S_ISLNK(st.st_mode):
+                out[r_] = "link:" + os.readlink(p_)
+            elif stat.S_ISDIR(st.st_mode):
+                out[r_] = "DIR"
+            elif stat.S_ISREG(st.st_mode):
+                out[r_] = "file:" + sha(open(p_, "rb").read())
+            else:
+                out[r_] = "special:%o" % stat.S_IFMT(st.st_mode)
+    return out
+
+
 def snapshot(target: Path):
     """Projection of the target path into the trace's snapshot string."""
     if os.path.islink(target):
@@ -232,6 +266,8 @@ def snapshot(target: Path):
         return f"link:{dest}:{inner}"
     if not os.path.lexists(target):
         return "absent"
+    if stat.S_ISFIFO(os.lstat(target).st_mode):
+        return "fifo"
     if target.is_dir():
         th = tree_hash(target)
         return "dir:" + sha(json.dumps(th, sort_keys=True).encode())
@@ -325,6 +361,8 @@ def make_world(ctx, run, idx, case):
         os.symlink("real-config.yml", target)
     elif k == "dangling":
         os.symlink("nowhere.yml", target)
+    elif k == "fifo":
+        os.mkfifo(target)
     elif k == "twin":
         # byte-identical to what init writes for the first init of the history (or sub)
         first = next((o["pkg"] for o in case["ops"] if o["op"] == "init"), "sub")
@@ -425,16 +463,24 @@ def replay_case(ctx, run, idx, case):
         tf = ctx.scratch / "worlds" / f"w{idx}.trace{j}"
         if o["op"] == "init":
             s = pkg_string(world, o["pkg"])
-            tree0 = tree_hash(root)
-            code, out, err, hev, wall = run.mockery(cwd, pre + ["init"] + post + ["--", s], tf, env=ENVS[case.get("env", "none")])
+            tree0 = tree_state(root)
+            amb = dict(ENVS[case.get("env", "none")])
+            extra = [amb.pop("_argv")] if "_argv" in amb else []
+            try:
+                code, out, err, hev, wall = run.mockery(cwd, pre + extra + ["init"] + post + ["--"] + pkg_args(world, o["pkg"]), tf, env=amb, timeout=30)
+                hang = False
+            except MachineryError:      # did not end: neither success nor a reported failure
+                code, out, err, hev, wall, hang = -1, "", "timeout", [], 30.0, True
             after = snapshot(target)
-            else_ = elsewhere(tree0, tree_hash(root), root, target)
+            else_ = elsewhere(tree0, tree_state(root), root, target)
             created = after != before and pres != "yes" and os.path.isfile(target)
             ev = {"op": "init", "case": idx, "pkg": s, "exit": code, "before": before, "after": after,
-                  "presence": pres, "created": created, "elsewhere": else_, "env": sorted(ENVS[case.get("env", "none")])}
-            ob = {"ok": code == 0, "after": "same" if after == before else ("created" if created else "changed"), "elsewhere": else_}
+                  "presence": pres, "created": created, "elsewhere": else_, "env": sorted(ENVS[case.get("env", "none")]),
+                  "argc": len(pkg_args(world, o["pkg"])), "hang": hang}
+            ob = {"ok": code == 0, "after": "same" if after == before else ("created" if created else "changed"), "elsewhere": else_, "hang": hang}
         elif o["op"] == "load":
-            code, out, err, hev, wall = run.mockery(cwd, load_args(case["cfg"], target, pre, post) + ["showconfig"], tf)
+            code, out, err, hev, wall = run.mockery(cwd / "sub" if o.get("from") == "below" else cwd,
+                                                    load_args(case["cfg"], target, pre, post) + ["showconfig"], tf)
             after = snapshot(target)
             keys, eff = read_showconfig(out) if code == 0 else ([], {})
             fkeys, allv, top = read_file_projection(target) if os.path.isfile(target) else (["<no file>"], "-", {})
@@ -442,7 +488,8 @@ def replay_case(ctx, run, idx, case):
                   "fkeys": fkeys, "all": allv, "top": top, "eff": eff}
             ob = {"ok": code == 0, "keys": keys, "fkeys": fkeys, "all": allv}
         elif o["op"] == "run":
-            code, out, err, hev, wall = run.mockery(cwd, load_args(case["cfg"], target, pre, post), tf)
+            code, out, err, hev, wall = run.mockery(cwd / "sub" if o.get("from") == "below" else cwd,
+                                                    load_args(case["cfg"], target, pre, post), tf)
             after = snapshot(target)
             pid = o["pkg"]
             mocked = mocked_interfaces(root, world, pid, hev) if pid in ("root", "sub") else []
@@ -529,14 +576,16 @@ def judge_case(ctx, idx, case, obs):
     bad = []
     world = case["world"]
     for j, (o, ob) in enumerate(zip(case["ops"], obs)):
-        base = {"op": o["op"], "world_class": "main" if world == "main" else world[0], "cfg": case["cfg"],
+        base = {"op": o["op"], "from": o.get("from", "cwd"), "world_class": "main" if world == "main" else world[0], "cfg": case["cfg"],
                 "start": case["start"], "env": case.get("env", "none"), "anc": case.get("anc", "none"), "decoy": case.get("decoy", "none"), "pkg_id": o["pkg"], "step": j,
                 "str_class": str_class(pkg_string(world, o["pkg"])) if o["pkg"] != "-" else "-"}
         det = {"case": case, "step": j, "observed": {k: v for k, v in ob.items() if k != "hook"}, "pkg_string": pkg_string(world, o["pkg"]) if o["pkg"] != "-" else None,
                "module": module_of(world)}
         if o["op"] == "init":
             got = {"ok": ob["ok"], "after": ob["after"]}
-            if got not in o["allow"]:
+            if ob.get("hang"):
+                bad.append((dict(base, kind="init-hang"), dict(det, expect="the command ends and reports failure")))
+            elif got not in o["allow"]:
                 bad.append((dict(base, kind="init-outcome", got_ok=ob["ok"], got_after=ob["after"]), dict(det, allowed=o["allow"])))
             elif ob["elsewhere"]:
                 bad.append((dict(base, kind="init-wrote-elsewhere", where=",".join(ob["elsewhere"])[:80]), dict(det, expect="created exactly at the target path, nothing else touched")))
@@ -701,6 +750,31 @@ def run(ctx):
             prefixes.add((k[0], k[1], k[2], k[3], k[4][:n]))
     n_transitions = len(cases)
     cases = [c for c in cases if opkey(c) not in prefixes]
+    n_maximal = len(cases)
+    # Histories that share everything but their last operation are replayed as one when that last operation
+    # leaves the state as it is (a refused init, a load): the contract's verdict on an operation depends on the
+    # state only, and "a refused init changes nothing" is itself judged at that operation.
+    groups, order = {}, []
+    for c in cases:
+        k = opkey(c)
+        gk = k[:4] + (k[4][:-1],)
+        if gk not in groups:
+            groups[gk] = []
+            order.append(gk)
+        groups[gk].append(c)
+    merged = []
+    for gk in order:
+        keep, chain = [], []
+        for c in groups[gk]:
+            o = c["ops"][-1]
+            if len(c["ops"]) >= 2 and ((o["op"] == "init" and not o["ok"]) or o["op"] == "load"):
+                chain.append(c)
+            else:
+                keep.append(c)
+        merged += keep
+        if chain:
+            merged.append(dict(chain[0], ops=chain[0]["ops"][:-1] + [c["ops"][-1] for c in chain]))
+    cases = merged
     if len(cases) < 200:
         raise MachineryError(f"too few exported histories ({len(cases)}): vacuous")
     # vacuity guards on the exported cases
@@ -721,6 +795,10 @@ def run(ctx):
         "ancestor .mockery.yaml two levels up": lambda c: c.get("anc", "").startswith("u2-yaml"),
         "symlink/.. target with a file at the real target only": lambda c: c["cfg"] in ("linkup", "linkupabs") and c["start"] != "absent" and c.get("decoy") == "absent",
         "symlink/.. target absent, decoy present": lambda c: c["cfg"] in ("linkup", "linkupabs") and c["start"] == "absent" and c.get("decoy") == "valid" and any(o["op"] == "load" and o["expect"]["judged"] for o in c["ops"]),
+        "load from a sub-directory (search upwards)": lambda c: any(o["op"] == "load" and o.get("from") == "below" and o["expect"]["judged"] for o in c["ops"]),
+        "run from a sub-directory": lambda c: any(o["op"] == "run" and o.get("from") == "below" and o["expect"]["judged"] for o in c["ops"]),
+        "named pipe at the target": lambda c: c["start"] == "fifo",
+        "init without a package argument on an absent target": lambda c: c["start"] == "absent" and c["ops"] and c["ops"][0]["op"] == "init" and c["ops"][0]["pkg"] == "a_none",
         "init under MOCKERY_CONFIG": lambda c: c.get("env") in ("config", "several") and any(o["op"] == "init" and o["ok"] for o in c["ops"]),
         "dangling link": lambda c: c["start"] == "dangling",
         "directory at the target": lambda c: c["start"] in ("dir", "dirfull"),
@@ -728,7 +806,7 @@ def run(ctx):
     for name, pred in guards.items():
         if not has(pred):
             raise MachineryError(f"vacuous: no exported history with: {name}")
-    used_ids = {o["pkg"] for c in cases for o in c["ops"] if o["pkg"] not in ("-", "root", "sub")}
+    used_ids = {o["pkg"] for c in cases for o in c["ops"] if o["pkg"] not in ("-", "root", "sub") and o["pkg"] not in ARG_SHAPES}
     unknown_env = {c.get("env", "none") for c in cases} - set(ENVS)
     if unknown_env:
         raise MachineryError(f"environment classes without a concretisation: {unknown_env}")
@@ -875,6 +953,7 @@ def run(ctx):
     ctx.cov["rule"] = ("every transition TLC generated on InitCmd.tla, each with a representative history (maximal histories replayed); "
                        "non-trivial = at least two operations")
     ctx.cov["model_transitions_exported"] = n_transitions
+    ctx.cov["maximal_histories"] = n_maximal
     ctx.cov["histories_replayed"] = len(cases)
     ctx.cov["package_strings"] = len(used_ids) + 2 * len(used_worlds)
     ctx.cov["worlds"] = sorted(used_worlds)
